@@ -584,7 +584,7 @@ func fullPathStress(res *Result, r *Rng, rounds int) {
 var ctrRand atomic.Uint64
 
 func runC15(res *Result, tier string, seed int64, replay string) {
-	res.Rule = "(1b) model-guided replay of whole cached compilations: 2–5 goroutines compile three documents (one unparsable) through Render(WithCache), parked at the yield points of parseAST and singleflightDo; the Lean concurrent cache Model (driver `cc`) chooses each next step — a thread step, an eviction, the passing of time — and after every step the goroutine must stand where the Model's thread stands; every compilation must return the uncached result and the cache must hold exactly the Model's entries; (1) model-guided replay: 2–6 goroutines on 1–2 keys call the real singleflightDo, parked at verif yield points; at every step the Lean Model (driver `sf`) gives the enabled set, one enabled goroutine is granted one atomic step and must arrive at the label the Model predicts (start/locked/waiting/lead/parsing/assigned/signalled/deleting/ret) and return the leader's node; (2) unguided search: free-running goroutines with seeded delays at the yield points, oracle = no overlapping parse per key, complete result of own key, all return; (3) full-path stress of Render(WithCache) with expiry shifts and stop/restart, solo-result comparison, cleanup-goroutine accounting; (4) life of the cleanup goroutine: histories with stops, restarts and configuration calls made while a cleaner runs, each in a fresh process and on the Lean cache Model (goroutines started / exited / registered, at most one alive); run under the race detector. Non-trivial = schedule with ≥2 goroutines on one key; distinct by label trace"
+	res.Rule = "(1b) model-guided replay of whole cached compilations: 2–5 goroutines compile three documents (one unparsable) through Render(WithCache), parked at the yield points of parseAST and singleflightDo; the Lean concurrent cache Model (driver `cc`) chooses each next step — a thread step, an eviction, the passing of time — and after every step the goroutine must stand where the Model's thread stands; every compilation must return the uncached result and the cache must hold exactly the Model's entries; (1) model-guided replay: 2–6 goroutines on 1–2 keys call the real singleflightDo, parked at verif yield points; at every step the Lean Model (driver `sf`) gives the enabled set, one enabled goroutine is granted one atomic step and must arrive at the label the Model predicts (start/locked/waiting/lead/parsing/assigned/signalled/deleting/ret) and return the leader's node; (2) unguided search: free-running goroutines with seeded delays at the yield points, oracle = no overlapping parse per key, complete result of own key, all return; (3) full-path stress of Render(WithCache) with expiry shifts and stop/restart, solo-result comparison, cleanup-goroutine accounting; (3b) the cleanup goroutine held at a yield point (just started / a sweep just finished) while the main goroutine stops it, uses the cache, stops again: fixed and seeded scripts, each in a fresh process with a 1 ms interval; after the release exactly the goroutines the last call asks for are alive and registered; (4) life of the cleanup goroutine: histories with stops, restarts and configuration calls made while a cleaner runs, and sweeps that really run (1 ms interval, a tick awaited after every step: over an empty cache, over expired entries only, around stops), each in a fresh process and on the Lean cache Model (goroutines started / exited / registered, at most one alive); run under the race detector. Non-trivial = schedule with ≥2 goroutines on one key; distinct by label trace"
 	drv, err := startDriver()
 	if err != nil {
 		res.Disagree(Violation{Sig: "driver-missing", Kind: "schedule", What: err.Error()})
@@ -643,9 +643,30 @@ func runC15(res *Result, tier string, seed int64, replay string) {
 	// concurrent cache Model, schedule by schedule
 	ccReplays(res, seed, nSched/2, "C15")
 	fullPathStress(res, NewRng(seed, "c15/stress"), rounds)
+	// (3b) the cleanup goroutine held at its yield points (just started; a sweep just done) while it is stopped and started
+	if replay == "" {
+		np := 12
+		if tier == "thorough" {
+			np = 300
+		}
+		runCleanerParked(res, NewRng(seed, "c15/parked"), np)
+	}
 	// (4) the cleanup goroutine's life against the Lean cache Model, each history in a fresh process
 	if pool, perr := startDriverPool(4); perr == nil {
 		lh := lifecycleHistories()
+		// … and with sweeps that actually run (1 ms interval, a tick awaited after every step): over an empty cache, over
+		// expired entries only, before and after stops — the cleaner stays the one registered goroutine throughout
+		fastPrefix := []string{fmt.Sprintf("I%d", nsMs), fmt.Sprintf("T%d", nsHour)}
+		ffull := fmt.Sprintf("a%d", nsHour)
+		for _, ops := range [][]string{
+			{"rc0", "t", ffull, "t", "t", "rc0", "t", "s", "rc1", "t", "s"},
+			{"rc2", "t", "t", "rc0", "t", "s", "rc0", "t"},
+			{"rc0", "t", "s", "rc1", "t", ffull, "t", "rc0", "t", "rc1", "s", "s", "rc0", "t"},
+			{"rc0", "t", ffull, "t", "s", "rc1", "t", ffull, "t", "rc1", "t", "s"},
+			{"rc2", "t", "s", "rc2", "t", "t", "s", "rc0", "t", ffull, "t", "t", "rc0", "s"},
+		} {
+			lh = append(lh, cacheHist{prefix: fastPrefix, ops: ops, fast: true})
+		}
 		parallel(4, len(lh), func(i int) { compareCache(pool, lh[i], res, "C15", false) })
 		pool.Close()
 	}
